@@ -193,13 +193,12 @@ theorem search_agree (a : Active) (s : Sealed) (hag : IndexAgree a s) (q : Q) (h
   | ok lids =>
     simp only
     have hmem := hm lids hl
-    have hids : lids.mapM (fun l => match (sealedIndex s).getMID l, (sealedIndex s).getRID l with | some m, some r => some (m, r) | _, _ => none) =
-        lids.mapM (fun l => match (activeIndex a).getMID l, (activeIndex a).getRID l with | some m, some r => some (m, r) | _, _ => none) := by
+    have hids : lids.mapM (idOf (sealedIndex s)) = lids.mapM (idOf (activeIndex a)) := by
       apply mapM_congr_opt
       intro l hlm
       have hw := hmem l hlm
       have hag' := hag.ids l (by omega) (by omega)
-      simp only [sealedIndex, activeIndex, hag'.1, hag'.2.1]
+      simp only [idOf, sealedIndex, activeIndex, hag'.1, hag'.2.1]
     rw [hids]
 
 end SV.C03
